@@ -255,6 +255,33 @@ def _dispatch(ctx) -> None:
             continue
         want = ("bin", _BIN[name.strip("_")[1:]], _B, _A)
         check(f, "_table_elementwise_operation", None, want, f"Table.{name}: the kernel operator computes {show(want)}")
+    # the arithmetic shifts are methods (<< and >> are concatenation): a Table must route them column by column too - the inherited
+    # Vector method applies the vector kernel to the table as a whole (columns come back unnamed, a table operand gives a nest)
+    for name in ("bit_lshift", "bit_rshift"):
+        f = tcls.methods.get(name)
+        if f is None:
+            ctx.ob("a.dispatch", prog.func("table.Table._table_elementwise_operation"), f"table-{name}", False, "", None,
+                   message=f"Table does not define {name}: t.{name}(1) falls back to Vector.{name}, whose kernel treats the table as a "
+                           f"vector of columns - the columns come back unnamed (table-with-scalar arithmetic keeps every column name)")
+            continue
+        it_, rets_ = _returns_of(prog, f)
+        TS = ("param", f.params[0])
+        probs_ = []
+        if not rets_ or it_.falls_through:
+            probs_.append("does not return the kernel's result on every path")
+        for e in rets_:
+            t = e.term
+            if not (t[0] == "call" and t[1] == ("attr", TS, "_table_elementwise_operation") and len(t[2]) >= 2 and t[2][0] == ("param", f.params[1])):
+                probs_.append(f"returns `{show(t, it_)[:70]}`, not self._table_elementwise_operation({f.params[1]}, ...)")
+                continue
+            opt = t[2][1]
+            if opt in (("attr", ("name", "Vector"), name),):
+                continue
+            got = _apply_op(prog, it_, f, opt, (_A, _B))
+            if got != ("call", ("attr", _A, name), (_B,), ()):
+                probs_.append(f"the operator argument `{show(opt, it_)[:40]}` is not the column's own {name}")
+        ctx.ob("a.dispatch", f, "dispatch", not probs_, f"Table.{name}: column.{name}(other) for every column", f.node,
+               message=f"{f.qualname}: " + "; ".join(probs_[:2]))
     for name, uop in (("__neg__", ("un", "USub", _A)), ("__pos__", ("un", "UAdd", _A)), ("__abs__", ("call", ("name", "abs"), (_A,), ())),
                       ("__invert__", ("un", "Invert", _A))):
         f = tcls.methods.get(name)
@@ -1012,6 +1039,10 @@ def _resolve(ctx) -> None:
 
 _V, _T = "vector", "table"
 MUTANTS = [
+    dict(id="table-bit-lshift-inherited", module="table", old="	def bit_lshift(self, other):", new="	def _unused_bit_lshift(self, other):",
+         rules=["a.dispatch"], desc="reverts fix fba6f9b"),
+    dict(id="table-bit-rshift-operator-concatenates", module="table", old="other, Vector.bit_rshift, 'bit_rshift', '>>')",
+         new="other, operator.rshift, 'bit_rshift', '>>')", rules=["a.dispatch"], desc="operator.rshift on columns is column stacking, not a shift"),
     dict(id="date-compare-other-not-widened", module=_V, old="bool(op(_at_midnight(x), _at_midnight(y)))", new="bool(op(_at_midnight(x), y))",
          rules=["e.wrappers"], desc="reverts fix b2ea82f"),
     dict(id="mapping-operand-as-sequence", module="vector", old="		if isinstance(other, Iterable) and not isinstance(other, (str, bytes, bytearray, Mapping)):\n			if len(self) != len(other):",
